@@ -187,6 +187,11 @@ pub struct Profile {
     pub interleave: bool,
     /// systematic enumeration of some knobs by case number (instead of sampling them)
     pub grid: Option<Grid>,
+    /// the first MDB_MAP_FULL ends the case (after `abort`, `dump`)
+    pub end_on_mapfull: bool,
+    /// `crash` scenario: `note final-txn` opens the last round, which always ends with
+    /// `note committing`, `commit`, `dump`, and the case stops there
+    pub crash_mode: bool,
 }
 
 /// The cross product of the non-empty lists is walked by case number (with a stride
@@ -297,7 +302,42 @@ struct Gen<'p> {
     broken_count: usize,
 }
 
-/// Draws the case-level choices that must be known before the environment exists.
+/// Draws the case-level choice that must be known before the environment exists: the map
+/// size. Returns the generator state to continue with.
+pub fn plan(p: &Profile, seed: u64, overrides: &Overrides) -> (Prng, usize) {
+    let mut r = Prng::new(seed);
+    let mapsize = overrides.mapsize.unwrap_or_else(|| p.mapsize.sample(&mut r) as usize);
+    // LMDB wants a multiple of the page size
+    let page = page_size::get();
+    let mapsize = mapsize.div_ceil(page).max(2) * page;
+    (r, mapsize)
+}
+
+/// Generates and executes the history of one case on `ex` (everything between the `host`
+/// line and `endcase`). `on_ready` is told the indexes of the case before the first op.
+pub fn drive(
+    p: &Profile,
+    r: Prng,
+    case: u64,
+    overrides: &Overrides,
+    ex: &mut Executor,
+    on_ready: &mut dyn FnMut(&[W]),
+) -> CaseStats {
+    let mut g = Gen::new(p, r, overrides, case);
+    if let Some(limit) = overrides.poll_limit.or(p.poll_limit) {
+        ex.exec(&Op::Note(format!("polllimit={limit}")));
+    }
+    ex.exec(&Op::Note(format!("profile={}", p.name)));
+    g.describe(ex);
+    let ws: Vec<W> = g.idx.iter().map(|st| st.w()).collect();
+    on_ready(&ws);
+    g.run(ex);
+    ex.finish();
+    g.stats.steps = ex.steps;
+    g.stats.panicked = ex.dead;
+    g.stats
+}
+
 pub fn run_case(
     p: &Profile,
     case: u64,
@@ -305,27 +345,13 @@ pub fn run_case(
     overrides: &Overrides,
     out: &mut dyn Write,
 ) -> Result<CaseStats, String> {
-    let mut r = Prng::new(seed);
-    let mapsize = overrides.mapsize.unwrap_or_else(|| p.mapsize.sample(&mut r) as usize);
-    // LMDB wants a multiple of the page size
-    let page = page_size::get();
-    let mapsize = mapsize.div_ceil(page).max(2) * page;
+    let (r, mapsize) = plan(p, seed, overrides);
     let env = CaseEnv::new(mapsize)?;
     let _ = writeln!(out, "case {case} seed={seed} mapsize={mapsize}");
     let _ = writeln!(out, "{}", host_line());
     let stats = {
         let mut ex = Executor::new(&env, out);
-        let mut g = Gen::new(p, r, overrides, case);
-        if let Some(limit) = overrides.poll_limit.or(p.poll_limit) {
-            ex.exec(&Op::Note(format!("polllimit={limit}")));
-        }
-        ex.exec(&Op::Note(format!("profile={}", p.name)));
-        g.describe(&mut ex);
-        g.run(&mut ex);
-        ex.finish();
-        g.stats.steps = ex.steps;
-        g.stats.panicked = ex.dead;
-        g.stats
+        drive(p, r, case, overrides, &mut ex, &mut |_| {})
     };
     let _ = writeln!(out, "endcase");
     Ok(stats)
@@ -706,6 +732,10 @@ impl<'p> Gen<'p> {
         self.broken_count += 1;
         bail_if_dead!(self.abort(ex));
         bail_if_dead!(ex.exec(&Op::Dump));
+        if self.p.end_on_mapfull {
+            ex.exec(&Op::Note("the map is full: ending the case".into()));
+            return false;
+        }
         bail_if_dead!(ex.exec(&Op::Begin));
         true
     }
@@ -1062,7 +1092,7 @@ impl<'p> Gen<'p> {
         } else {
             None
         };
-        BuildOpts { ntrees, split, mem, cancel, threads, seed: self.r.next_u64() }
+        BuildOpts { ntrees, split, mem, cancel, threads, seed: self.r.next_u64(), tmpdir: None }
     }
 
     /// Builds index `i`; on failure aborts (or retries). Returns false when the case is over.
@@ -1075,10 +1105,8 @@ impl<'p> Gen<'p> {
             let w = self.idx[i].w();
             let o = self.step(ex, Op::Build(w, opts));
             bail_if_dead!(o);
-            if !self.txn_broken {
-                bail_if_dead!(ex.exec(&Op::Dump));
-            }
             if o == Outcome::Ok {
+                bail_if_dead!(ex.exec(&Op::Dump));
                 self.stats.builds_ok += 1;
                 self.est_polls = ex.last_polls;
                 let st = &mut self.idx[i];
@@ -1089,19 +1117,24 @@ impl<'p> Gen<'p> {
                 return self.after_build(ex, i);
             }
             self.stats.builds_err += 1;
-            // the state of the transaction is now whatever the build left
-            if !self.txn_broken {
+            // The crate's contract: after a failed or cancelled build the transaction must be
+            // aborted. Only profiles that ask for it look at (and retry in) what is left.
+            if attempts < 3 && !self.txn_broken && self.r.chance(self.p.p_retry_in_txn) {
+                bail_if_dead!(ex.exec(&Op::Dump));
                 bail_if_dead!(ex.exec(&Op::NeedBuild(w)));
                 bail_if_dead!(ex.exec(&Op::Open(w)));
-            }
-            if attempts < 3 && !self.txn_broken && self.r.chance(self.p.p_retry_in_txn) {
                 continue;
             }
-            if self.txn_broken {
+            let was_broken = self.txn_broken;
+            if was_broken {
                 self.broken_count += 1;
             }
             bail_if_dead!(self.abort(ex));
             bail_if_dead!(ex.exec(&Op::Dump));
+            if was_broken && self.p.end_on_mapfull {
+                ex.exec(&Op::Note("the map is full: ending the case".into()));
+                return false;
+            }
             bail_if_dead!(ex.exec(&Op::Begin));
             return true;
         }
@@ -1182,7 +1215,7 @@ impl<'p> Gen<'p> {
 
     fn run(&mut self, ex: &mut Executor) -> bool {
         let p = self.p;
-        let rounds = p.rounds.sample(&mut self.r).max(1);
+        let rounds = p.rounds.sample(&mut self.r).max(if p.crash_mode { 2 } else { 1 });
         bail_if_dead!(ex.exec(&Op::Begin));
         for round in 0..rounds {
             if self.broken_count >= 3 {
@@ -1190,6 +1223,10 @@ impl<'p> Gen<'p> {
                 break;
             }
             let first = round == 0;
+            let last_of_crash = p.crash_mode && round + 1 == rounds;
+            if last_of_crash {
+                bail_if_dead!(ex.exec(&Op::Note("final-txn".into())));
+            }
             // metric changes
             if !first {
                 for i in 0..self.idx.len() {
@@ -1263,7 +1300,7 @@ impl<'p> Gen<'p> {
                     return false;
                 }
             }
-            if self.r.chance(p.p_commit_before_build) {
+            if !last_of_crash && self.r.chance(p.p_commit_before_build) {
                 bail_if_dead!(self.commit(ex));
                 bail_if_dead!(ex.exec(&Op::Dump));
                 if !self.outside_checks(ex) {
@@ -1285,6 +1322,12 @@ impl<'p> Gen<'p> {
                 if !self.idx[i].dirty && self.r.chance(p.p_rebuild) && !self.build(ex, i) {
                     return false;
                 }
+            }
+            if last_of_crash {
+                bail_if_dead!(ex.exec(&Op::Note("committing".into())));
+                bail_if_dead!(self.commit(ex));
+                bail_if_dead!(ex.exec(&Op::Dump));
+                return true;
             }
             // transaction placement
             let ar = &p.after_round;
